@@ -164,6 +164,12 @@ XExercised(ln) ==
     \cup T(ok /\ RefsOK(o) /\ \E m \in Ran(o.meshes) : \E p \in Ran(m.prims) : WeightSumJudged(o, p), "weight-sum-judged")
     \cup T(ok /\ RefsOK(o) /\ SkinRefsOK(o, xo) /\ AnimRefsOK(o, xo) /\ \E i \in Misaligned(o) : i - 1 \in XAccIds(o, xo),
            "skin-accessor-after-odd-indices")
+    \* the prediction of the L2 model (GltfAnimWriter) for this scene against what the real writer did
+    \cup (IF ln.l2.status = "" THEN {}
+          ELSE IF ln.l2.status = "OK"
+               THEN T(o.status = "OK" /\ ln.l2.nodes = Len(o.nodes) /\ ln.l2.skins = o.nskins /\ ln.l2.anims = o.nanims, "l2-agrees")
+                    \cup T(~(o.status = "OK" /\ ln.l2.nodes = Len(o.nodes) /\ ln.l2.skins = o.nskins /\ ln.l2.anims = o.nanims), "l2-disagrees")
+               ELSE T(o.status = ln.l2.status, "l2-agrees") \cup T(o.status # ln.l2.status, "l2-disagrees"))
 
 Verdict(ln) ==
     LET j == XJudge(ln) IN [l |-> 0, bad |-> j.bad, det |-> j.det, ex |-> XExercised(ln)]
